@@ -19,7 +19,7 @@ Inner == U(MaxDepth - 1)
 
 VARIABLE v
 Init == v \in Inner \cup (IF MaxDepth = 2 THEN Rootless(L0, TopKinds) ELSE {})
-Next == Depth(v) < MaxDepth /\ v' \in Expand(v, Inner, Width, RootSeqWidth, TopKinds, TopDCs)
+Next == Level(v) < MaxDepth /\ v' \in Expand(v, Inner, Width, RootSeqWidth, TopKinds, TopDCs)
 Spec == Init /\ [][Next]_v
 
 \* values redun can hash at all (a top-level set must be sortable); the others are only stepping
